@@ -270,11 +270,12 @@ class Implementation(type):
         overloads = _build_overloads(dct, members, interfaces)
 
         for key, member_list in members.items():
-            overload = overloads.get(key)
-
             for member in member_list:
-                if member.is_abstract and overload is None:
+                if member.is_abstract and key not in overloads:
                     raise TypeError(f"No implementation provided for {member}.")
+
+        for key, member_list in members.items():
+            overload = overloads.get(key)
 
             if overload is not None:
                 for member in member_list:
